@@ -432,6 +432,9 @@ func cmdCheck(id, tier string) int {
 		vioOut = append(vioOut, map[string]interface{}{"class": min.Class(), "replay": rp, "message": firstLines(min.Msg, 6)})
 		exit = 1
 	}
+	if ok, msg := determinismSample(id, master, tmp); !ok {
+		infra = append(infra, msg)
+	}
 	if id == "C20" {
 		rs := raceSupplement(tier, master, known)
 		raceEvidence = rs.evidence
@@ -764,4 +767,40 @@ func startWatchdog() {
 			}
 		}
 	}()
+}
+
+// determinismSample re-executes the first run indices of the batch in two fresh processes at
+// GOMAXPROCS 1 and 16 and compares the per-run hashes (trace, responses, final state). Replay
+// and minimisation rest on this; a difference is an infrastructure error (exit 2), never a
+// violation. The full self-test is `simcheck selftest`.
+var determinismEvidence map[string]interface{}
+
+func determinismSample(id string, master uint64, tmp string) (bool, string) {
+	const n = 24
+	var ref map[string]string
+	for k, procs := range []string{"1", "16"} {
+		out := filepath.Join(tmp, fmt.Sprintf("det-%d.json", k))
+		cmd := exec.Command(selfExe(), "worker", "-prop", id, "-tier", "quick", "-seed", strconv.FormatUint(master, 10),
+			"-from", "0", "-to", strconv.Itoa(n), "-step", "1", "-out", out, "-hashes")
+		cmd.Env = append(os.Environ(), "GOMAXPROCS="+procs, "VERIF_SCRATCH_DIR="+tmp)
+		if err := cmd.Run(); err != nil {
+			return false, fmt.Sprintf("determinism sample: worker failed: %v", err)
+		}
+		b, _ := os.ReadFile(out)
+		var res WorkerResult
+		if err := json.Unmarshal(b, &res); err != nil || res.InfraErr != "" {
+			return false, fmt.Sprintf("determinism sample: %v %s", err, res.InfraErr)
+		}
+		if ref == nil {
+			ref = res.RunHashes
+			continue
+		}
+		for i, h := range ref {
+			if res.RunHashes[i] != h {
+				return false, fmt.Sprintf("NONDETERMINISM property=%s run_index=%s: GOMAXPROCS=1 gives %s, GOMAXPROCS=16 gives %s", id, i, h, res.RunHashes[i])
+			}
+		}
+	}
+	determinismEvidence = map[string]interface{}{"runs": len(ref), "processes": "2 fresh processes, GOMAXPROCS 1 and 16", "identical": true}
+	return true, ""
 }
